@@ -1,0 +1,12 @@
+//go:build verif
+
+package packet
+
+// VerifLen returns the total number of entries in the tracer's seven maps
+// (read-only accessor for the verification harness).
+func (t *Tracer) VerifLen() int {
+	t.mu.RLock()
+	defer t.mu.RUnlock()
+
+	return len(t.hooks) + len(t.sources) + len(t.targets) + len(t.receives) + len(t.reads) + len(t.writes) + len(t.reader)
+}
